@@ -117,6 +117,24 @@ BUILT = {
             'header and an untouched source grid are compared with an evaluator written from the Haystack filter semantics.',
             'Semantics pinned in DESIGN.md Appendix C; ids are plain strings; Ref equality by name, display-less.',
             'DESIGN.md 3/C11'),
+    'C12': ('payload x slot x shape table + hypothesis fragment soup; canary objects, sys.addaudithook events and global-state snapshots as oracle',
+            'About 200 payloads (canary calls, __import__/open/exec/eval/compile/getattr expressions, dunder and builtin names, '
+            'quote/backquote/backslash/newline/#/; break-outs, format directives) are placed, escaped and raw, into 32 literal '
+            'and identifier slots of the filter grammar inside 6 enclosing shapes and evaluated with grid.filter; no canary '
+            'may be touched, no executed/compiled code may name a payload identifier, no import/open/process/socket audit '
+            'event may mention a canary, only parse errors/ValueError may escape, and module globals, builtins, sys.modules, '
+            'environment, cwd, canary directory and the grid must be unchanged.',
+            'An absence-of-effect claim can only be searched; effects are visible only through canaries, audit events and the '
+            'snapshotted state.',
+            'DESIGN.md 3/C12'),
+    'C13': ('harness-owned deterministic thread scheduler (sys.settrace line events) with enumerated preemption-bounded and hypothesis-drawn schedules; hypothesis histories around the LRU capacity; reference-evaluator oracle',
+            'Threads compiling and evaluating distinct fresh filters are interleaved at source-line granularity inside '
+            'hszinc/grid_filter.py by a scheduler whose schedule is data: all 2-thread schedules with <= 4 (quick) / 5 '
+            '(thorough) switches and all 3-thread schedules with <= 3 / 4 are enumerated, more are drawn by Hypothesis; every '
+            'thread must get its own filter\'s rows, also on re-evaluation. Histories of evaluate/re-evaluate/call-held-function/'
+            'gc over filter pools are run against an lru_cache(8) re-wrap and the real capacity 500 (1,300 filters).',
+            'Line granularity; C-level operations are atomic under the GIL.',
+            'DESIGN.md 3/C13'),
     'C14': ('exhaustive small-scope enumeration of operation histories + hypothesis histories, lock-step with a Python list model',
             'Every history of up to 4 (quick) / 5 (thorough) operations over a 27-op alphabet (append, insert, extend, +=, item '
             'assignment, del by index and slice, pop, remove, reverse, clear, continue-on-slice, refused non-dict rows and '
